@@ -47,6 +47,8 @@ def midrow(italic, underline=False, color=0):
 
 # set by a check that wants rows whose preamble and mid-row codes are the UNDERLINED variants (same cells, same italics)
 UNDERLINE_RNG = None
+# set by a check that wants roll-up / paint-on rows to hold the accented letters and the division sign of the basic set
+ACCENT_RNG = None
 
 CMD = {"RCL": word(0x14, 0x20), "BS": word(0x14, 0x21), "DER": word(0x14, 0x24), "RU2": word(0x14, 0x25), "RU3": word(0x14, 0x26),
        "RU4": word(0x14, 0x27), "RDC": word(0x14, 0x29), "EDM": word(0x14, 0x2c), "CR": word(0x14, 0x2d), "ENM": word(0x14, 0x2e), "EOC": word(0x14, 0x2f)}
@@ -448,6 +450,14 @@ def rollup_rows(rng, lines, rows, frame, df, doubled, paint, depth, ru_once, nro
         text = " ".join("".join(rng.choice(SAFE_CHARS[:52]) for _ in range(rng.randint(1, 7))) for _ in range(rng.randint(1, 6)))[:maxlen].rstrip()
         if rng.random() < 0.15:
             text = (text + "".join(rng.choice(SAFE_CHARS[:52]) for _ in range(32)))[:32]     # a full-width row
+        if ACCENT_RNG is not None and text and ACCENT_RNG.random() < 0.7:
+            # the basic set's ten non-ASCII cells (0x2a, 0x5c, 0x5e-0x60, 0x7b-0x7e), spelled by this generator's own table
+            tl = list(text)
+            for _ in range(ACCENT_RNG.randint(1, 3)):
+                j = ACCENT_RNG.randrange(len(tl))
+                if tl[j] != " ":
+                    tl[j] = ACCENT_RNG.choice("áéíóúç÷Ññ")
+            text = "".join(tl)
         items = [("c", ch) for ch in text]
         if rich and rng.random() < 0.5 and len(items) >= 3:
             # a few special and extended characters (the latter sent as stand-in + code) replace basic ones
